@@ -93,6 +93,10 @@ def r2(ctx):
                 pc_some = path_counts(b, se[1], lambda x: x in sends)
             if ne:
                 pc_none = path_counts(b, ne[1], lambda x: x in sends)
+        if ves and fid.endswith("{closure#0}"):
+            ne = ves[0][1].get("None") or ves[0][2]
+            ys = [x for x in b.reachable(ne[1]) if b.term(x)["k"] == "yield" and b.dominated_by_edge(x, ne)]
+            ctx.inst(R, "trigger:no-match-returns-immediately", not ys, b.span, "a trigger matching no live barrier never suspends" if not ys else "the no-match path of trigger awaits something")
         ok = pc_some == (1, 1) and pc_none in ((0, 0), None) and not other
         ctx.inst(R, f"{fid.split('::')[2]}:one-report", ok, b.span, "a matching trigger is reported exactly once, a non-matching one never" if ok else
                  f"after a match the number of reports per path is {pc_some} (no match: {pc_none}); other channel calls: {other} - a matching trigger can be unreported (dropped) or reported twice")
@@ -107,7 +111,7 @@ def r2(ctx):
     if bb_:
         uc = [t for bb, t in bb_.calls(re.compile(r"^tokio::sync::mpsc::unbounded_channel$"))]
         ctx.inst(R, "build:unbounded_channel", len(uc) == 1, bb_.span, "one unbounded channel per barrier" if len(uc) == 1 else "Barrier::build does not create exactly one unbounded channel")
-    ctx.floor(R, 4)
+    ctx.floor(R, 5)
 
 
 def r3(ctx):
